@@ -12,10 +12,10 @@ import (
 type OptCase struct {
 	P        *Prob  `json:"p"`
 	CostLits []int  `json:"costlits"`
-	CostWs   []int  `json:"costws"`  // ignored when NilWs
-	NilWs    bool   `json:"nilws"`   // SetCostFunc(lits, nil): all weights are 1
-	NoCost   bool   `json:"nocost"`  // no cost function at all
-	Entry    string `json:"entry"`   // optimal | minimize | optimal-chan
+	CostWs   []int  `json:"costws"` // ignored when NilWs
+	NilWs    bool   `json:"nilws"`  // SetCostFunc(lits, nil): all weights are 1
+	NoCost   bool   `json:"nocost"` // no cost function at all
+	Entry    string `json:"entry"`  // optimal | minimize | optimal-chan
 	CP       bool   `json:"cp"`
 }
 
